@@ -4,6 +4,7 @@ use crate::parse::expr_or_stmt::parse_expr_or_stmt;
 use crate::parse::iterator::LexIterator;
 use crate::parse::lex::token::Token;
 use crate::parse::operation::parse_expression;
+use crate::parse::result::custom;
 use crate::parse::result::expected_one_of;
 use crate::parse::result::ParseResult;
 use crate::parse::ty::parse_type;
@@ -73,6 +74,11 @@ pub fn parse_match_cases(it: &mut LexIterator) -> ParseResult<Vec<AST>> {
         it.eat_while(&Token::NL);
         Ok(())
     })?;
+
+    if cases.is_empty() {
+        // only comments or blank lines in the block: `match x:` / `try:` without an arm is not Python
+        return Err(Box::from(custom("Expected at least one case", start)));
+    }
 
     it.eat(&Token::Dedent, "match cases")?;
     Ok(cases)
